@@ -100,6 +100,11 @@ HAND = [
     "OC1CCCCC1>>O=C1CCCCC1",
     "O=C1CCCCC1>>OC1CCCCC1",
     "O=Cc1ccccc1>>OCc1ccccc1",
+    # primary alcohol -> acid with water on the reactant side (KMnO4/H2SO4 template)
+    "CCO.O>>CC(=O)O",
+    "OCc1ccccc1.O>>OC(=O)c1ccccc1",
+    "CCCO.O>>CCC(O)=O",
+    "OCC1CCCCC1.O>>OC(=O)C1CCCCC1",
     # rule based one sided
     "CC(=O)O.CCO>>CC(=O)OCC",
     "CC(=O)OCC.O>>CC(=O)O",
